@@ -41,7 +41,7 @@ func TestMain(m *testing.M) {
 		os.Exit(3)
 	}
 	tmpDir = d
-	defer os.RemoveAll(d)
+	vr.AtExit(func() { os.RemoveAll(d) })
 	vr.Main(m)
 }
 
